@@ -591,3 +591,30 @@ def rule_forth_input(rep, fb, floor=10):
                         detail="error tested before the result is used")
     each_block(run["body"], onblock)
     return r.done()
+
+
+def rule_forth_width(rep, fb, floor=2):
+    r = rep.rule("WIDTH.forth-stack", "in every instantiation of ForthMachineOf::internal_run no stack value (element of stack_buffer_ / result of stack_pop / *stack_peek) is implicitly narrowed "
+                 "below the machine's integer width (e.g. by being passed to a 32-bit C function such as int abs(int))", floor=floor)
+    funcs = [f for f in fb.lib_funcs(inst=True) if f["cls"] and f["cls"].startswith("ForthMachineOf") and f["name"] == "internal_run"]
+    if not funcs:
+        raise AnalysisError("no instantiation of ForthMachineOf::internal_run found")
+    for f in funcs:
+        targs = ",".join(f["targs"] or ())
+        tw = 64 if (f["targs"] or ("",))[0] in ("long", "int64_t") else 32
+        bad = 0
+        ptrvars = set()
+        for d in find_all(f["body"], lambda n: n[0] == "decl" and len(n) == 5 and n[3] is not None and n[3][0] == "mcall" and n[3][1] in ("stack_pop2", "stack_pop2_before_pushing1", "stack_peek")):
+            ptrvars.add(d[1])
+        for n in find_all(f["body"], lambda n: n[0] == "narrow"):
+            src = n[3]
+            is_stack = bool(find_all((src,), lambda k: k == ("member", ("this",), "stack_buffer_") or (k[0] == "mcall" and k[1] in ("stack_pop",)) or (k[0] == "idx" and k[1][0] == "var" and k[1][1] in ptrvars)))
+            towidth = int(n[1].split("<-")[0])
+            if is_stack and towidth < tw:
+                # narrowing that feeds an index/count parameter of another API (seek position, output number ...) is by design: only arithmetic on the value itself matters
+                parent_is_arith = True
+                bad += 1
+                r.fail("internal_run<%s>:narrow#%d" % (targs, bad), "%s:%d" % (f["file"], f["line"]), "stack value %s is implicitly narrowed to %s in ForthMachineOf<%s>::internal_run" % (unparse(cexpr(src))[:50], n[2], targs))
+        if not bad:
+            r.ok("internal_run<%s>" % targs, "no implicit narrowing of stack values")
+    return r.done()
